@@ -1,6 +1,8 @@
 import RainModel.Model.ResourceManager
 import RainModel.Lemmas.ResourceManager
 import RainModel.Model.WebseedCap
+import RainModel.Model.TokenBucket
+import RainModel.Lemmas.TokenBucket
 /-!
 C17 — configured resource limits hold at all times and reservations balance.
 Property theorems only; helper lemmas live in `Lemmas/`.
@@ -94,5 +96,46 @@ theorem webseed_cap_old_counterexample :
   refine ⟨by decide, List.replicate 10 .http, by decide, by decide⟩
 
 end Webseed
+
+
+/-! ### Rate limits: the token bucket and the take-sleep-transfer pattern -/
+section Bucket
+open Rain.TokenBucket
+
+/-- **bucket_grants_bound.** For every bucket (`fillInterval`, `capacity`, `quantum` > 0, initially
+full) and every sequence of `Take` calls issued at non-decreasing clock values, the tokens whose
+ready time (call time + returned wait) is `≤ t` total at most `capacity + quantum · ⌊t / fillInterval⌋`,
+for every `t`. -/
+theorem bucket_grants_bound (fi C q : Nat) (b0 : Bucket) (h0 : new fi C q = some b0)
+    (calls : List Call) (hm : Monotone 0 calls) (t : Nat) :
+    grantedBy t (run b0 [] calls).2 ≤ C + q * (t / fi) :=
+  good_bound t _ (run_inv calls (new_inv h0) hm)
+
+/-- **bucket_bound.** The take-then-sleep-then-transfer pattern of the three use sites
+(peerreader.readPiece, peerwriter.messageWriter, urldownloader.Run): if every transfer happens
+at or after the ready time of its `Take` and moves at most the taken count (nothing when the
+goroutine is stopped while waiting), then the bytes passed by time `t` are at most
+`capacity + quantum · ⌊t / fillInterval⌋ ≤ burst + rate · t` (second conjunct: the same bound
+multiplied out, `rate = quantum / fillInterval` tokens per nanosecond). -/
+theorem bucket_bound (fi C q : Nat) (b0 : Bucket) (h0 : new fi C q = some b0)
+    (calls : List Call) (hm : Monotone 0 calls) (xs : List Transfer)
+    (hf : Follows xs (run b0 [] calls).2) (t : Nat) :
+    passedBy t xs ≤ C + q * (t / fi) ∧ passedBy t xs * fi ≤ C * fi + q * t := by
+  have h1 : passedBy t xs ≤ C + q * (t / fi) :=
+    Nat.le_trans (passedBy_le_grantedBy t xs _ hf) (bucket_grants_bound fi C q b0 h0 calls hm t)
+  refine ⟨h1, ?_⟩
+  have h2 : passedBy t xs * fi ≤ (C + q * (t / fi)) * fi := Nat.mul_le_mul_right fi h1
+  have h3 : t / fi * fi ≤ t := Nat.div_mul_le_self t fi
+  have h4 : q * (t / fi) * fi ≤ q * t := by
+    rw [Nat.mul_assoc]; exact Nat.mul_le_mul_left q h3
+  rw [Nat.add_mul] at h2
+  omega
+
+/-- Non-vacuity: 4 tokens per 10 ns, burst 8; a 20-token take at time 3 has to wait until tick 3
+(ready at 30), a later 1-token take queues behind it. -/
+example : (run { capacity := 8, quantum := 4, fillInterval := 10, availableTokens := 8, latestTick := 0 } []
+    [⟨3, 20⟩, ⟨5, 1⟩, ⟨61, 8⟩]).2 = [⟨61, 8⟩, ⟨40, 1⟩, ⟨30, 20⟩] := by decide
+
+end Bucket
 
 end Rain.Props.C17
